@@ -116,7 +116,7 @@ epserde = {{ path = "{r}/epserde", default-features = false, features = ["std", 
     }
     for (label, u) in universes {
         let d = bindir.join(label);
-        write_if_changed(&d.join("main.rs"), "mod uni;\nfn main() {\n    voracles::runner::main(uni::subjects(), uni::layouts());\n}\n");
+        write_if_changed(&d.join("main.rs"), "mod uni;\nfn main() {\n    voracles::runner::main(uni::subjects(), uni::layouts(), uni::seqs());\n}\n");
         write_if_changed(&d.join("uni.rs"), &vmodel::render::program(u));
         write_if_changed(Path::new(&universe_json_path(label)), &serde_json::to_string(u).unwrap());
     }
